@@ -85,12 +85,13 @@ def menu_for(k):
     return menu[:5]
 
 
-def _files(prefix):
+def _files(prefix, remove=True):
     out = {}
     for fn in sorted(glob.glob(prefix + "-*.csv")):
         with open(fn) as f:
             out[os.path.basename(fn)[len(os.path.basename(prefix)) + 1:]] = f.read()
-        os.remove(fn)
+        if remove:
+            os.remove(fn)
     return out
 
 
@@ -370,8 +371,8 @@ B_ = [[1, 1], [0, 2], [3, 0], [0, 0]]
 V_ = [1, 1, 0, 1]
 
 
-def _s_matvec(prefix, traces, thr=None, abandon=False, consumable=False):
-    At = Tensor.fromUncompressed(["M", "K"], A_, shape=[3, 4])
+def _s_matvec(prefix, traces, thr=None, abandon=False, consumable=False, A=None):
+    At = Tensor.fromUncompressed(["M", "K"], A or A_, shape=[3, 4])
     Bt = Tensor.fromUncompressed(["K"], V_, shape=[4])
     Z = Tensor(rank_ids=["M"], shape=[3])
     Metrics.beginCollect(prefix)
@@ -486,6 +487,8 @@ ALL_MV = [("M", "iter"), ("K", "iter"), ("K", "intersect_0"), ("K", "intersect_1
 SESSIONS = [
     ("matvec-all", lambda p: _s_matvec(p, ALL_MV)),
     ("matvec-none", lambda p: _s_matvec(p, [])),
+    # an all-zero A: the K loop is never reached, its registered traces never start
+    ("matvec-all-empty-A", lambda p: _s_matvec(p, ALL_MV, A=[[0] * 4] * 3)),
     ("matvec-thr2", lambda p: _s_matvec(p, [("K", "iter"), ("K", "intersect_1")], thr=2)),
     ("matvec-abandoned", lambda p: _s_matvec(p, [("M", "iter"), ("K", "iter")], abandon=True)),
     ("matvec-consumable", lambda p: _s_matvec(p, [("K", "iter"), ("K", "intersect_0")], consumable=True)),
@@ -515,7 +518,8 @@ def _run_session(i):
                 Metrics.collecting = False
     _LAST["live"] = Metrics.dump()          # the object handed to the caller (kept across later sessions)
     dump = copy.deepcopy(_LAST["live"])
-    files = _files(prefix)
+    files = _files(prefix, remove=not _MODE.get("keepfiles"))
+    _LAST["files"] = files
     if SESSIONS[i][0] in DIRTY:
         # what a half-open session reports is not compared: only what it does to later sessions
         return (None, None, SESSIONS[i][0], None)
@@ -523,6 +527,9 @@ def _run_session(i):
 
 
 _LAST = {}
+# keepfiles: the sessions of one history share the trace prefix AND the files of earlier sessions stay on disk (what a
+# user re-running kernels in one directory has); a session is then compared on the files of the traces it registers
+_MODE = {}
 
 
 class St:
@@ -535,11 +542,15 @@ _BASE = {}
 
 def build(init):
     S = St()
+    _MODE["keepfiles"] = False
+    _files(os.path.join(core.scratch(), "c15s"))
     if not _BASE:
         for i in range(len(SESSIONS)):
             reset_pristine()
             _BASE[i] = _run_session(i)
     reset_pristine()
+    _MODE["keepfiles"] = len(init) > 1 and init[1] == "keepfiles"
+    _LAST["files"] = {}
     return S
 
 
@@ -566,6 +577,9 @@ def step(S, op):
         # the session itself cannot run from the pristine state: nothing to compare
         core.CUR.path("session-fails-from-pristine:" + name)
         return out
+    if _MODE.get("keepfiles") and got[1] is not None and base[1] is not None:
+        # files of traces this session does not register are none of its business
+        got = (got[0], {k: v for k, v in got[1].items() if k in base[1]}, got[2], got[3])
     for idx, what in ((0, "dump"), (1, "trace-files"), (2, "output"), (3, "error")):
         if got[idx] != base[idx]:
             out.append(("session-isolation", what + "-differs-after-earlier-sessions", {"session:" + name},
@@ -574,6 +588,8 @@ def step(S, op):
 
 
 def key(S):
+    if _MODE.get("keepfiles"):
+        return (canon_metrics(), tuple(sorted(_LAST.get("files", {}).items())))
     return canon_metrics()
 
 
@@ -843,3 +859,7 @@ def run(ctx):
         info = bfs.explore(ctx.acc, SPEC, [("pristine",)], "sessions", max_depth=None,
                            deadline=time.time() + 300)
         ctx.bounds["sessions"] = dict(menu=[s[0] for s in SESSIONS], **info)
+        info = bfs.explore(ctx.acc, SPEC, [("pristine", "keepfiles")], "sessions-shared-directory", max_depth=2 if q else 3,
+                           deadline=time.time() + 300)
+        ctx.bounds["sessions-shared-directory"] = dict(note="same menu; the trace files of earlier sessions stay on disk under the "
+                                                            "same prefix (the files are part of the state)", **info)
